@@ -20,3 +20,68 @@ MUTATIONS = [
          old="        h11 = t3 - t2\n\n        return h00 * self.p0 + h10 * self.trange * self.m0 + h01 * self.p1 + h11 * self.trange * self.m1\n\n    def __repr__",
          new="        h11 = t3 - 2 * t2\n\n        return h00 * self.p0 + h10 * self.trange * self.m0 + h01 * self.p1 + h11 * self.trange * self.m1\n\n    def __repr__"),
 ]
+
+# --------------------------------------------------------------------------------------------------
+# the "kills" lists of DESIGN.md section 6, as concrete single-site mutations of the repaired tree
+# --------------------------------------------------------------------------------------------------
+RK = "desolver/integrators/components/runge_kutta_methods.py"
+IT = "desolver/integrators/integrator_types.py"
+TP = "desolver/integrators/integrator_template.py"
+DS = "desolver/differential_system.py"
+OP = "desolver/utilities/optimizer.py"
+MUTATIONS += [
+    dict(name="stage_time_not_scaled_by_h", props=["C02", "C01"], file=RK,
+         old="            initial_time + timestep * rk_tableau[stage, 0], ", new="            initial_time + rk_tableau[stage, 0], "),
+    dict(name="increment_uses_last_weight_row", props=["C02", "C01"], file=IT,
+         old="            self.dState = timestep * D.ar_numpy.sum(self.stage_values * self.tableau_final[0, 1:], axis=-1)",
+         new="            self.dState = timestep * D.ar_numpy.sum(self.stage_values * self.tableau_final[-1, 1:], axis=-1)"),
+    dict(name="splitting_time_advances_with_kicks", props=["C02", "C10", "C01"], file=IT,
+         old="            current_time = current_time + timestep * self.tableau_intermediate[stage, 1]",
+         new="            current_time = current_time + timestep * self.tableau_intermediate[stage, 2]"),
+    dict(name="richardson_denominator_off_by_one", props=["C01"], file=IT,
+         old="                            2.0 ** (self.basis_order + n - 1) - 1)", new="                            2.0 ** (self.basis_order + n) - 1)"),
+    dict(name="implicit_fixed_step_clamp_removed", props=["C04"], file=IT,
+         old="            if not self.is_adaptive and D.ar_numpy.abs(timestep) > D.ar_numpy.abs(current_timestep):\n                # without",
+         new="            if False and D.ar_numpy.abs(timestep) > D.ar_numpy.abs(current_timestep):\n                # without"),
+    dict(name="safety_factor_above_one", props=["C05"], file=IT,
+         old="solver_dict_preserved = dict(safety_factor=0.8,", new="solver_dict_preserved = dict(safety_factor=1.6,"),
+    dict(name="rejection_threshold_loosened", props=["C05"], file=TP,
+         old="            return timestep, bool(corr < 0.9**2)", new="            return timestep, bool(corr < 0.2**2)"),
+    dict(name="backward_lookup_fix_reverted", props=["C06", "C09"], file=DS,
+         old="        if idx > 0 and self.__is_decreasing() and self.t_eval[idx] > t:", new="        if False and self.__is_decreasing() and self.t_eval[idx] > t:"),
+    dict(name="event_order_ignores_direction", props=["C07", "C09"], file=DS,
+         old="        order = D.ar_numpy.argsort(D.ar_numpy.sign(t_next - t_prev) * roots)", new="        order = D.ar_numpy.argsort(roots)"),
+    dict(name="brent_vec_success_from_residual_only", props=["C08", "C14"], file=OP,
+         old="    true_conv = (fa * fb <= 0) & (true_conv | (D.ar_numpy.abs(b - a) <= tol * D.ar_numpy.maximum(1.0, D.ar_numpy.abs(b))))",
+         new="    true_conv = (fa * fb <= 0) & true_conv"),
+    dict(name="landing_goes_to_first_root", props=["C09"], file=DS,
+         old="                            self.integrate(roots[-1])", new="                            self.integrate(roots[0])"),
+    dict(name="newton_jacobian_wrong_for_negative_steps", props=["C11", "C02"], file=IT,
+         old="                    self.__jac[idx:idx + __step, jdx:jdx + __step] -= timestep * self.tableau_intermediate",
+         new="                    self.__jac[idx:idx + __step, jdx:jdx + __step] -= D.ar_numpy.abs(timestep) * self.tableau_intermediate"),
+    dict(name="failure_cause_dropped", props=["C12"], file=DS,
+         old="            new_e.__cause__ = e\n", new="            pass\n"),
+    dict(name="reset_keeps_dt", props=["C13"], file=DS,
+         old="        self.dt = self.__dt0\n", new="        pass\n"),
+    dict(name="brent_scalar_initial_swap_dropped", props=["C14"], file=OP,
+         old="    if D.ar_numpy.abs(fa) < D.ar_numpy.abs(fb):\n        a, b = b, a\n        fa, fb = fb, fa\n\n    c = D.ar_numpy.copy(a)",
+         new="    c = D.ar_numpy.copy(a)"),
+    dict(name="residual_gate_disabled", props=["C15", "C02"], file=OP,
+         old="    return bool(Fn <= xtol * D.ar_numpy.maximum(1.0, D.ar_numpy.linalg.norm(J)) and Fn <= tol * (J.shape[0] + Fn_initial))",
+         new="    return True"),
+    dict(name="fd_jacobian_layout_transposed", props=["C16"], file=U,
+         old="            return jacobian_y.reshape((*D.ar_numpy.shape(dy_val), *D.ar_numpy.shape(y)))",
+         new="            return jacobian_y.T.reshape((*D.ar_numpy.shape(y), *D.ar_numpy.shape(dy_val)))"),
+    dict(name="t_eval_not_sorted", props=["C18"], file=DS,
+         old="        t_eval = D.ar_numpy.sort(t_eval)\n", new="        t_eval = D.ar_numpy.asarray(t_eval)\n"),
+    dict(name="index_guard_off_by_one", props=["C19"], file=DS,
+         old="            if index > self.counter:", new="            if index >= self.counter:"),
+    dict(name="nfev_counted_before_the_call", props=["C20"], file=DS,
+         old="        called_val = self.rhs(t, y, *args, **kwargs)\n        self.nfev += 1\n", new="        self.nfev += 1\n        called_val = self.rhs(t, y, *args, **kwargs)\n"),
+    dict(name="final_step_test_reverted", props=["C03", "C04", "C18"], file=DS,
+         old="if not implicit_integration and D.ar_numpy.abs(self.dt) > D.ar_numpy.abs(tf - self.__t[self.counter]):",
+         new="if not implicit_integration and D.ar_numpy.abs(self.dt + self.__t[self.counter]) > D.ar_numpy.abs(tf):"),
+    dict(name="gauss_legendre4_a12_perturbed", props=["C10", "C01", "C11"], file="desolver/integrators/implicit_integration_schemes.py",
+         old="        [[0.5 - s / 6, 0.25, 0.25 - s / 6],\n         [0.5 + s / 6, 0.25 + s / 6, 0.25]], dtype=numpy.float64",
+         new="        [[0.5 - s / 6, 0.25 + 1e-3, 0.25 - s / 6 - 1e-3],\n         [0.5 + s / 6, 0.25 + s / 6, 0.25]], dtype=numpy.float64"),
+]
